@@ -243,3 +243,7 @@ mod verif_expire;
 mod verif_find_fork;
 #[cfg(feature = "verif-hooks")]
 pub use verif_find_fork::{VerifForkChanges, verif_find_fork};
+
+/// verification hook: read-only size of the pending-verify set (see the module documentation)
+#[cfg(feature = "verif-hooks")]
+mod verif_idle;
